@@ -138,6 +138,13 @@ class Obj:
     def __len__(self):
         return self._dunder('__len__')
 
+    def __call__(self, *args, **kwargs):
+        # a stub that stands for a class / callable object declares a __call__ field
+        f = object.__getattribute__(self, '_fields')
+        if '__call__' not in f:
+            raise TypeError("'Obj' object is not callable (stub %s declares no __call__)" % object.__getattribute__(self, '_name'))
+        return f['__call__'](*args, **kwargs)
+
     def __bool__(self):
         # truth value of a stub: its __bool__ / __len__ field if the contract declares one, else True (a plain object)
         f = object.__getattribute__(self, '_fields')
